@@ -686,8 +686,10 @@ func (env *Env) callExpr(x *ECall) (*Term, types.Type) {
 		return BVLit64(0, 64), types.Typ[types.Uint64]
 	case "ref":
 		t, ty := arg(0)
-		if _, ok := ty.Underlying().(*types.Slice); ok {
-			return SlArr(t), nil
+		if ty != nil {
+			if _, ok := ty.Underlying().(*types.Slice); ok {
+				return SlArr(t), nil
+			}
 		}
 		if t.sort == SIface {
 			return IfVal(t), nil
@@ -821,6 +823,23 @@ func (env *Env) callExpr(x *ECall) (*Term, types.Type) {
 			efail("unbox: unknown type %s", s.S)
 		}
 		return env.fr.unbox(st, t, ty), ty
+	case "atomicfield":
+		// content of the atomic.Value stored in field p.f
+		sel, ok := x.Args[0].(*ESel)
+		if !ok {
+			efail("atomicfield() needs a field selection")
+		}
+		bt, bty := env.eval(sel.X)
+		pt, ok := bty.Underlying().(*types.Pointer)
+		if !ok {
+			efail("atomicfield(): base is not a pointer")
+		}
+		sst := pt.Elem().Underlying().(*types.Struct)
+		idx, _ := findField(sst, sel.Name)
+		if idx < 0 {
+			efail("atomicfield(): no field %s", sel.Name)
+		}
+		return Select(env.fc.get(st, "A:"+fieldClass(pt.Elem(), idx), SArr(SRef, SIface)), bt), nil
 	case "lockdepth":
 		t, _ := arg(0)
 		return Select(env.fc.get(st, "lock", SArr(SRef, SInt)), t), nil
